@@ -163,3 +163,51 @@ Section WithOracle.
       + intros H; inversion H; subst. apply ss_cons, ss_refl.
   Qed.
 End WithOracle.
+
+(* ---- CSI parameters saturate: whatever digits are sent (also more than fit in 64 bits), every
+   parameter the tokenizer hands on lies in 0 .. 65535 and at most 32 of them are kept ---- *)
+Definition param_ok (p : Z) : Prop := 0 <= p <= maxCSIParam.
+
+Lemma store_param_ok acc v : Forall param_ok acc -> zlen acc <= nParamStore -> param_ok v ->
+  Forall param_ok (store_param acc v) /\ zlen (store_param acc v) <= nParamStore.
+Proof.
+  intros Ha Hl Hv. unfold store_param. destruct (Z.ltb_spec (zlen acc) nParamStore) as [L|L].
+  - split; [apply Forall_app; split; [exact Ha|constructor; [exact Hv|constructor]]|].
+    rewrite zlen_app. change (zlen [v]) with 1. lia.
+  - split; assumption.
+Qed.
+
+Lemma scan_params_bounded inp : forall acc param pset sawsep ps fb rest,
+  Forall param_ok acc -> zlen acc <= nParamStore -> param_ok param ->
+  scan_params inp acc param pset sawsep = Some (ps, fb, rest) ->
+  Forall param_ok ps /\ zlen ps <= nParamStore.
+Proof.
+  induction inp as [|b inp IH]; intros acc param pset sawsep ps fb rest Ha Hl Hp H; cbn [scan_params] in H; [discriminate|].
+  cbv zeta in H. destruct (b =? 59).
+  - destruct (store_param_ok acc param Ha Hl Hp) as (A & B).
+    eapply IH; [exact A|exact B| |exact H]. unfold param_ok, maxCSIParam. lia.
+  - destruct (is_digit b) eqn:D.
+    + eapply IH; [exact Ha|exact Hl| |exact H].
+      unfold is_digit in D. apply andb_prop in D. destruct D as (D1 & D2).
+      apply Z.leb_le in D1, D2. unfold param_ok in *.
+      destruct (Z.ltb_spec maxCSIParam (param * 10 + (b - 48))); unfold maxCSIParam in *; clear IH H Ha; lia.
+    + inversion H; subst; clear H.
+      destruct (pset || sawsep); [|split; assumption].
+      apply store_param_ok; [exact Ha|exact Hl|]. destruct pset; [exact Hp|unfold param_ok, maxCSIParam; lia].
+Qed.
+
+Theorem csi_params_saturate inp prefix ps f rest :
+  parse_csi inp = PTok (TCsi prefix ps f) rest -> Forall param_ok ps /\ zlen ps <= nParamStore.
+Proof.
+  unfold parse_csi. destruct inp as [|b r]; [discriminate|].
+  destruct (if is_private b then _ else _) as [pr body].
+  destruct (scan_params body [] 0 false false) as [[[params fb] rest']|] eqn:E; [|discriminate].
+  destruct (_ || _).
+  - destruct (skip_to_final rest'); discriminate.
+  - intros H; inversion H; subst.
+    apply (scan_params_bounded body [] 0 false false ps f rest).
+    + constructor.
+    + reflexivity || (unfold zlen, nParamStore; cbn [length Z.of_nat]; lia).
+    + unfold param_ok, maxCSIParam. lia.
+    + exact E.
+Qed.
